@@ -33,6 +33,7 @@ def plan(tier, seed):
     for k in POOL_KINDS:
         tasks += pool.batches(f"names:{k}", 220 if q else 3500, 10)
     tasks += pool.batches("strings", 150 if q else 2000, 10) + pool.batches("corpus", len(workload.corpus()), 2)
+    tasks += pool.batches("pairs", 160 if q else 2500, 10)
     tasks += pool.batches("longlines", 120 if q else 2000, 10) + pool.batches("modules", 200 if q else 3000, 10)
     for hz in ("ifexp_else_load",):
         tasks += pool.batches(f"defect:{hz}", 30 if q else 300, 10)
@@ -61,6 +62,11 @@ def gen_case(task, i):
     elif st == "corpus":
         src = workload.corpus_case(i)["src"]
         base["inline_functions"] = bool(i & 1)
+    elif st == "pairs":
+        from .. import gen_shapes
+
+        src = gen_shapes.pair_program(r)
+        base["inline_functions"] = r.random() < 0.6
     elif st == "longlines":
         # every emitted line is long (source comments, one instruction per statement): the version tag finds no
         # line to sit on - whatever the compiler does then must leave the numeric targets right
